@@ -210,7 +210,7 @@ def san_report(r):
     if m:
         kind = 'asan:' + m.group(1)
     else:
-        m = re.search(r'ERROR: (MemorySanitizer|LeakSanitizer): (\S+)', err)
+        m = re.search(r'(?:ERROR|WARNING): (MemorySanitizer|LeakSanitizer): (\S+)', err)
         if m:
             kind = 'msan:' + m.group(2)
         else:
